@@ -10,10 +10,18 @@ ID = 'C19'
 RULE = ('writer-produced IPM files (PDS, ICC, typed fields, element subsets) and arbitrary-byte parameter files x ordered pairs of '
         '{latin_1, cp500, cp037} x {vbs,1014}^2, through the tool functions mci_ipm_encode and mci_ipm_param_encode on BytesIO and '
         'through the command entry points (mci_ipm_encode, mideu convert, mci_ipm_param_encode, paramconv with and without -o) on '
-        'real temporary files; A->B then B->A must reproduce the original bytes; non-trivial = distinct case with at least 2 records')
+        'real temporary files; one case in four has A = B (format-only conversion); A->B then B->A must reproduce the original bytes; non-trivial = distinct case with at least 2 records')
 EXHAUSTIVE = {}
 ASSUMPTIONS = ['argparse wiring, file opening and printing are exercised by the run only (no theorem about them)']
 ENC = ['latin_1', 'cp500', 'cp037']
+
+
+def pair(rng):
+    # A = B (a format-only conversion) is a legitimate use of the tools: one case in four
+    if rng.random() < 0.25:
+        a = rng.choice(ENC)
+        return a, a
+    return rng.sample(ENC, 2)
 
 
 def gen(rng, tier):
@@ -21,7 +29,7 @@ def gen(rng, tier):
     pk = iu.packaged()
     n = 70 if tier == 'quick' else 1200
     for i in range(n):
-        a, b = rng.sample(ENC, 2)
+        a, b = pair(rng)
         fa, fb = rng.random() < 0.5, rng.random() < 0.5
         msgs = [iu.dict_text(iu.rand_message_fit(rng, pk, a, nbits=rng.choice([1, 3, 8, 20]))) for _ in range(rng.choice([1, 2, 5, 12]))]
         via = ['func', 'cli', 'mideu'][i % 3]
@@ -31,7 +39,7 @@ def gen(rng, tier):
             msgs = [iu.dict_text(iu.rand_message_fit(rng, pk, a, nbits=rng.choice([1, 3, 8, 20]))) for _ in range(rng.choice([1, 2, 5]))]
         cases.append({'kind': 'ipm', 'via': via, 'a': a, 'b': b, 'fa': fa, 'fb': fb, 'msgs': msgs})
     for i in range(n):
-        a, b = rng.sample(ENC, 2)
+        a, b = pair(rng)
         fa, fb = rng.random() < 0.5, rng.random() < 0.5
         recs = [bytes(rng.randrange(256) for _ in range(rng.choice([1, 5, 80, 250, 1100]))).hex() for _ in range(rng.choice([1, 2, 6]))]
         via = ['func', 'cli', 'paramconv', 'paramconv-o'][i % 4]
